@@ -101,6 +101,13 @@ def run(case, seed):
     if case["vdtype"] == "real":
         v = np.ascontiguousarray(v.real if np.linalg.norm(v.real) > 0 else np.abs(v))
     v = np.asarray(v) * float(case.get("scale", 1.0))
+    vhat, cfac = None, None
+    if case.get("normval") is not None:
+        # NORM stream: a unit vector vhat and the start vector c * vhat with |c| = normval (complex phase for complex data)
+        vhat = v / np.linalg.norm(v)
+        vhat = vhat / np.linalg.norm(vhat)
+        cfac = float(case["normval"]) * (np.exp(1j * float(case.get("theta", 0.0))) if np.iscomplexobj(vhat) else 1.0)
+        v = cfac * vhat
     amp = float(np.exp(np.max((dt * ev).real)))
     ref = evec @ (np.exp(dt * ev) * (evec.conj().T @ v))
     ref2 = scipy.linalg.expm(dt * A) @ v
@@ -131,6 +138,18 @@ def run(case, seed):
         out["second_call_it"] = int(it2)
     except Exception as e:                                      # noqa
         out["second_call_err"] = "raised " + type(e).__name__
+    # homogeneity (NORM stream): kernel(c * vhat) = c * kernel(vhat), purely relative
+    out["homog"] = None
+    if vhat is not None:
+        try:
+            with warnings.catch_warnings():
+                warnings.simplefilter("ignore")
+                ru, itu = K.expm_krylov(lambda x: A @ x, dt_arg, vhat.copy(), bs)
+            ru = np.asarray(ru)
+            out["homog"] = float(np.linalg.norm(np.asarray(res) - cfac * ru) / (abs(cfac) * np.linalg.norm(ru)))
+            out["unit_it"] = int(itu)
+        except Exception as e:                                      # noqa
+            out["homog"] = "raised " + type(e).__name__
     CALLS[:] = first_calls
     out["warn"] = sorted(set(x.category.__name__ for x in wl))
     last = CALLS[-1]
